@@ -109,8 +109,10 @@ def find_islands(im, bkg, rms,
     for i in range(n):
         xmin, xmax = f[i][0].start, f[i][0].stop
         ymin, ymax = f[i][1].start, f[i][1].stop
+        # the pixels of this island within its bounding box
+        own = l[xmin:xmax, ymin:ymax] == i + 1
         # obey seed clip constraint
-        if np.any(snr[xmin:xmax, ymin:ymax] > seed_clip):
+        if np.any(snr[xmin:xmax, ymin:ymax][own] > seed_clip):
             # obey region constraint
             if region is not None:
                 y, x = np.where(snr[xmin:xmax, ymin:ymax] >= flood_clip)
@@ -137,7 +139,7 @@ def find_islands(im, bkg, rms,
 
             island = PixelIsland()
             island.calc_bounding_box(
-                np.array(np.nan_to_num(data_box), dtype=bool),
+                np.logical_not(island_mask),
                 offsets=[xmin, ymin]
             )
             island.set_mask(island_mask)
